@@ -30,6 +30,10 @@ LEVEL = 'model_checking'
 HASHSEEDS = {'quick': 2, 'thorough': 8}
 
 COIN = 10 ** 8
+FEE_IN = 148 * 50      # fee of one input at the default 50 dewies/byte
+U1_AMOUNT = FEE_IN + 3000      # covers an empty transaction's fee (500) + the price of a change output (2300), but
+#                                what is left (200 more) is below DUST: an output-less build needs a second round
+ABANDON_AMOUNT = FEE_IN + 100
 DUSTY = 20000          # a small coin (effective amount 12600 at 50 dewies/byte)
 ALL_STRATEGIES = ['sqlite', 'prefer_confirmed', 'only_confirmed', 'standard', 'branch_and_bound',
                   'closest_match', 'random_draw']
@@ -47,11 +51,13 @@ class StopCase(Exception):
 # ------------------------------------------------------------------------------------------------
 
 class Build:
-    __slots__ = ('i', 'pay', 'outcome', 'phase', 'claims', 'selecting', 'releasing', 'task', 'tx', 'inputs', 'error',
-                 'cancel_phase', 'net')
+    __slots__ = ('i', 'pay', 'outcome', 'shape', 'pre', 'phase', 'claims', 'selecting', 'releasing', 'task', 'tx', 'inputs',
+                 'error', 'cancel_phase', 'net', 'rounds')
 
-    def __init__(self, i, pay, outcome):
-        self.i, self.pay, self.outcome = i, pay, outcome
+    def __init__(self, i, pay, outcome, shape='pay'):
+        self.i, self.pay, self.outcome, self.shape = i, pay, outcome, shape
+        self.pre = None          # pre-chosen input (an 'abandon' build spends a claim-like output of the wallet)
+        self.rounds = 0          # funding rounds: calls of ledger.get_spendable_utxos
         self.phase = 'new'       # new -> building -> held | refused | failed | releasing -> released | cancelled
         self.claims = set()      # txoids get_spendable_utxos handed to this build and it has not given up
         self.selecting = 0       # inside ledger.get_spendable_utxos
@@ -65,7 +71,7 @@ class Build:
 
     @property
     def kind(self):
-        return (self.pay, self.outcome)
+        return (self.pay, self.outcome, self.shape)
 
 
 class Violation(Exception):
@@ -154,11 +160,19 @@ def execute(case, chooser, visited=None, rolling=None):
     rolling: list that receives the running observation digest after every event (replays)."""
     import asyncio
     from vf.wallet_h import WalletH, Coin, PAYEE_HASH
-    from lbry.wallet import Transaction, Output
+    from lbry.wallet import Transaction, Output, Input
     from lbry.error import InsufficientFundsError
     from lbry.wallet.rpc.jsonrpc import RPCError
 
-    coins = [Coin(a, 'conf', 'coin', (), k) for k, a in enumerate(case['coins'])]
+    coins = [Coin(a, 'conf', 'coin', (), k) if isinstance(a, int) else Coin(a[0], a[1], 'coin', (), k)
+             for k, a in enumerate(case['coins'])]
+    shapes = case.get('shapes') or ['pay'] * case['n']
+    pre_coins = {}
+    for i, shp in enumerate(shapes):
+        if shp == 'abandon':
+            # a claim-like output the build spends; after its own fee it brings 100 dewies, less than the base fee
+            pre_coins[i] = Coin(ABANDON_AMOUNT, 'conf', 'claim', ('pre',), 2)
+            coins.append(pre_coins[i])
     h = WalletH(coins, strategy=case['strategy'], atomic_jobs=False, perm=case.get('perm', 0))
     log = hashlib.blake2b(digest_size=12)
     violations = []
@@ -170,7 +184,10 @@ def execute(case, chooser, visited=None, rolling=None):
         initial = h.rows()
         initial_ids = set(initial)
         assert not h.reserved()
-        builds = [Build(i, p, o) for i, (p, o) in enumerate(zip(case['pays'], case['outcomes']))]
+        builds = [Build(i, p, o, shp) for i, (p, o, shp) in enumerate(zip(case['pays'], case['outcomes'], shapes))]
+        for i, c in pre_coins.items():
+            builds[i].pre = c.txo
+        initial_utxo_ids = {u.id for u in h.run(acct.get_utxos())}
         by_task = {}
         cancel_victim = case.get('cancel')
         late = case.get('late')
@@ -190,6 +207,7 @@ def execute(case, chooser, visited=None, rolling=None):
             if b is None:
                 return await orig_gsu(amount, funding_accounts, *a, **kw)
             b.selecting += 1
+            b.rounds += 1
             try:
                 spendables = await orig_gsu(amount, funding_accounts, *a, **kw)
             finally:
@@ -237,7 +255,12 @@ def execute(case, chooser, visited=None, rolling=None):
         async def build(b):
             b.phase = 'building'
             try:
-                tx = await Transaction.create([], [Output.pay_pubkey_hash(b.pay, PAYEE_HASH)], [acct], acct)
+                if b.shape == 'pay':
+                    tx = await Transaction.create([], [Output.pay_pubkey_hash(b.pay, PAYEE_HASH)], [acct], acct)
+                elif b.shape == 'outputless':       # sweep-like build: needs >= 2 funding rounds on a small first coin
+                    tx = await Transaction.create([], [], [acct], acct)
+                else:                               # 'abandon': spends a claim-like output, requests no output
+                    tx = await Transaction.create([Input.spend(b.pre)], [], [acct], acct)
             except InsufficientFundsError:
                 b.phase, b.claims = 'refused', set()
                 return
@@ -246,7 +269,7 @@ def execute(case, chooser, visited=None, rolling=None):
                 return
             b.tx = tx
             b.inputs = [txi.txo_ref.id for txi in tx.inputs]
-            if set(b.inputs) != b.claims:
+            if set(b.inputs) - ({b.pre.id} if b.pre is not None else set()) != b.claims:
                 flag({'kind': 'inputs-differ-from-selection'},
                      f'build {b.i}: transaction inputs are not the outputs the ledger handed out')
             b.phase = 'held'
@@ -507,11 +530,17 @@ def execute(case, chooser, visited=None, rolling=None):
                  f'(cause: {cause}' + (f', build cancelled while {builds[cancel_victim].cancel_phase}' if cancelled[0] else '')
                  + f', strategy {case["strategy"]})')
         utxos = h.run(acct.get_utxos())
-        if not left and {u.id for u in utxos} != initial_ids:
+        if not left and {u.id for u in utxos} != initial_utxo_ids:
             flag({'kind': 'utxo-set-changed'}, 'get_utxos() no longer returns the initial set')
         loop_exc = [str(c.get('exception') or c.get('message'))[:160] for c in loop.exc_contexts]
         if any(b.phase == 'refused' for b in builds):
             witnesses.add('a_build_was_refused')
+        if any(b.rounds >= 2 for b in builds):
+            witnesses.add('build_needed_two_funding_rounds')
+        if any(b.rounds >= 2 and b.phase == 'refused' for b in builds):
+            witnesses.add('build_failed_in_a_later_round_after_reserving')
+        if any(initial[k]['height'] <= 0 for b in builds for k in (b.inputs or ())):
+            witnesses.add('unconfirmed_output_selected')
         log.update(repr(summary).encode())
         return {'violations': violations, 'summary': summary, 'order': order, 'digest': log.hexdigest(),
                 'events': events, 'states': states, 'witnesses': witnesses, 'loop_exc': loop_exc,
@@ -541,6 +570,28 @@ def utxo_sets(n):
     ]
 
 
+def state_sets(n):
+    """UTXO sets with confirmation states (verified@5 / unverified@0 / unverified@-1)."""
+    half = COIN // 2
+    return [
+        ('mixed-states', [[COIN, ('conf', 'mem0', 'memneg')[k % 3]] for k in range(n + 1)], half),
+        ('conf-small+unconf-plenty', [[DUSTY, 'conf']] * n + [[COIN, 'mem0']] * n, half),
+        ('all-unconf', [[COIN, ('mem0', 'memneg')[k % 2]] for k in range(n)], half),
+    ]
+
+
+def multi_round_sets(n, shape):
+    """Build 0 is output-less / an abandon (needs a second funding round on the small coin U1), the others are
+    ordinary payments; with n-1 big coins the multi-round build runs dry when the payments are served first or
+    in between, with n it can finish."""
+    half = COIN // 2
+    shapes = [shape] + ['pay'] * (n - 1)
+    return [
+        ('U1+n-1_coins', [U1_AMOUNT] + [COIN] * (n - 1), half, shapes),
+        ('U1+n_coins', [U1_AMOUNT] + [COIN] * n, half, shapes),
+    ]
+
+
 def outcome_vectors(n, tier):
     base = ['hold', 'release', 'bcast_fail']
     if n == 2:
@@ -563,15 +614,19 @@ def gen_cases(tier):
     quick = tier == 'quick'
     cases = []
 
-    def add(n, sets, strategies, ovs, cancel=None, late=None, bound=None, cross_check=False):
-        for name, coins, pay in utxo_sets(n):
+    def add(n, sets, strategies, ovs, cancel=None, late=None, bound=None, cross_check=False, source=None):
+        for entry in (source or utxo_sets(n)):
+            name, coins, pay = entry[:3]
             if sets is not None and name not in sets:
                 continue
             for st in strategies:
                 for ov in ovs:
-                    cases.append({'n': n, 'set': name, 'coins': coins, 'pays': [pay] * n, 'strategy': st,
-                                  'outcomes': list(ov), 'cancel': cancel, 'late': late, 'bound': bound,
-                                  'cross_check': cross_check})
+                    c = {'n': n, 'set': name, 'coins': coins, 'pays': [pay] * n, 'strategy': st,
+                         'outcomes': list(ov), 'cancel': cancel, 'late': late, 'bound': bound,
+                         'cross_check': cross_check}
+                    if len(entry) > 3:
+                        c['shapes'] = entry[3]
+                    cases.append(c)
 
     two = ['sqlite', 'prefer_confirmed']
     three = ['sqlite', 'prefer_confirmed', 'random_draw']
@@ -623,6 +678,22 @@ def gen_cases(tier):
         add(12, ['n-1_equal', 'pairwise', 'big+dust'], two, [['release'] * 12], bound=2)
         add(12, ['n-1_equal'], ['prefer_confirmed'], [mixed3 * 4], bound=1)
         add(12, ['big+dust'], two, [mixed3 * 4], bound=1)
+    # ---- confirmation states in the UTXO set (the sqlite chooser falls back on unverified outputs), every strategy
+    add(2, None, ALL_STRATEGIES, [['hold', 'hold'], ['hold', 'release']], source=state_sets(2))
+    add(3, None, two if quick else four, [['hold'] * 3] if quick else [['hold'] * 3, ['release'] * 3], source=state_sets(3))
+    if not quick:
+        add(2, None, two, [['hold', 'hold']], late=1, source=state_sets(2))
+        add(2, None, two, [['hold', 'hold']], cancel=0, source=state_sets(2))
+    # ---- builds that need >= 2 funding rounds (output-less / pre-chosen input) competing with ordinary payments
+    for shape in ('outputless', 'abandon'):
+        add(2, None, ALL_STRATEGIES, [['release', 'release'], ['hold', 'hold']], source=multi_round_sets(2, shape))
+        add(3, None, two, [['release'] * 3], source=multi_round_sets(3, shape))
+        add(2, ['U1+n-1_coins'], two, [['release', 'release']], late=1, source=multi_round_sets(2, shape))
+        if not quick:
+            add(2, None, two, [['hold', 'release'], ['release', 'bcast_fail']], source=multi_round_sets(2, shape))
+            add(2, ['U1+n-1_coins'], two, [['release', 'release']], cancel=0, source=multi_round_sets(2, shape))
+            add(3, None, two, [['hold', 'release', 'release']], late=2, source=multi_round_sets(3, shape))
+            add(4, ['U1+n-1_coins'], two, [['release'] * 4], source=multi_round_sets(4, shape))
     # ---- the same exploration without state pruning must agree (validation of the pruning)
     add(2, ['n_equal', 'pairwise'] if quick else None, two, [['hold', 'release']], cross_check=True)
     if not quick:
@@ -719,7 +790,7 @@ def explore_case(case, res, cross_check=False):
         for _ in range(n):
             res.violation(sig, what, {'case': case, 'choices': choices})
     res.distinct_add('nontrivial', (case['n'], case['set'], case['strategy'], tuple(case['outcomes']), case['cancel'],
-                                    case['late']))
+                                    case['late'], tuple(case.get('shapes') or ())))
     res.count('evaluations')
     res.distinct_add('distinct_outcomes', (case['n'], case['set'], case['strategy'], tuple(sorted(seen['outcomes']))))
     # determinism self-check: first, last and violating choice sequences are replayed twice without the
@@ -824,7 +895,8 @@ def run(ctx):
                      'how many builds succeed is tallied, not judged'],
         expected_witnesses=['build_waiting_on_reservation_lock', 'two_builds_holding_at_once',
                             'job_completion_injected_early', 'late_build_arrived_mid_flight',
-                            'cancel_between_job_run_and_done'],
+                            'cancel_between_job_run_and_done', 'build_needed_two_funding_rounds',
+                            'build_failed_in_a_later_round_after_reserving', 'unconfirmed_output_selected'],
     )
 
 
@@ -833,7 +905,7 @@ def replay(data):
     case, choices = data['case'], data['choices']
     ch = Chooser(choices)
     obs = execute(case, ch)
-    lines = [f"case: N={case['n']} coins={case['coins']} pay={case['pays'][0]} strategy={case['strategy']} "
+    lines = [f"case: N={case['n']} coins={case['coins']} pay={case['pays'][0]} shapes={case.get('shapes')} strategy={case['strategy']} "
              f"outcomes={case['outcomes']} cancel={case['cancel']} late={case['late']}",
              f"choices: {choices}", f"start order: {obs['order']}", f"final: {obs['summary']}"]
     for t in ch.trace:
